@@ -361,6 +361,13 @@ def units(tier: str) -> List[Any]:
     # two history owners (deep and shallow) side by side: what is remembered for one must not leak into the other on restore
     A_ = ("A", ())
     us.append(("tree", ("C", (("C", (("Hd", ()), A_, ("C", (A_, A_)))), ("C", (("Hs", ()), A_, A_))))))
+    # keys named so that document order is the reverse of id order: the persisted history (ids sorted) must be restored
+    # in the order the live engine remembers it (document order decides the order of the restored states' entry actions)
+    rev = [("C", (("P", (("Hd", ()), A_, A_)), A_)), ("C", (("P", (("Hs", ()), A_, A_)), A_)),
+           ("C", (("C", (("Hd", ()), ("P", (A_, A_)), A_)), A_))]
+    if tier == "thorough":
+        rev += [t for t in F.trees_upto(4) if any(k in ("Hs", "Hd") for k in F.tree_kinds(t)) and "P" in F.tree_kinds(t) and t not in rev]
+    us += [("tree-rev", t) for t in rev]
     us.append(("actor", None))
     us.append(("actorf", None))
     bases = [["GO", "N", "BACK", "SPAWN"], ["SPAWN", "SPAWN2", "PING"], ["GO", "N"]]
@@ -373,12 +380,12 @@ def units(tier: str) -> List[Any]:
 
 def run_unit(unit):
     kind, payload = unit
-    if kind == "tree":
-        cfg, nodes, events = F.universal_config(payload, reenter_all=False)
+    if kind in ("tree", "tree-rev"):
+        cfg, nodes, events = F.universal_config(payload, reenter_all=False, naming="prefix" if kind == "tree" else "reversed")
         cfg["context"] = {"k": 0}
         F.cfg_node(cfg, nodes[0]).setdefault("on", {})["INC"] = {"actions": [A.assign(lambda a: {"k": (a["context"]["k"] + 1) % 2})]}
         evs = [n for n, e in events.items() if e["kind"] == "T"] + ["INC"]
-        return explore_machine(cfg, evs, F.tree_str(payload))
+        return explore_machine(cfg, evs, F.tree_str(payload) + ("" if kind == "tree" else " (keys z,y,x,...)"))
     if kind == "actor":
         return explore_machine(actor_cfg(), ACTOR_EVENTS, "ACTOR", services={"kid": kid_machine()})
     if kind == "actorf":
